@@ -18,6 +18,7 @@ import Mochi.Driver.Shutdown
 import Mochi.Driver.Hooks
 import Mochi.Driver.Alias
 import Mochi.Driver.InflOrder
+import Mochi.Driver.AckFit
 open Mochi.Driver
 
 structure DState where
@@ -45,7 +46,7 @@ def answer (st : DState) (line : String) : DState × String :=
   match ws with
   | ["reset"] => ({}, "-\tok\t-")
   | _ =>
-    match (varintOp impl ws <|> keepaliveOp impl ws <|> wsOp impl ws <|> codecOp impl ws <|> readerOp impl ws <|> hooksOp impl ws) with
+    match (varintOp impl ws <|> keepaliveOp impl ws <|> wsOp impl ws <|> codecOp impl ws <|> readerOp impl ws <|> hooksOp impl ws <|> ackFitOp impl ws) with
     | some r => (st, fmt r)
     | none =>
       match (topicsOp st.topics impl ws <|> topicsConcOp st.topics impl ws) with
